@@ -503,10 +503,52 @@ def r5_externalised_tables(ctx, rep):
     from . import c16
     c16.table_keys_kept(ctx, rep)
 
+def r6_tables_read_by_key(ctx, rep):
+    """an entity imported under a local name is found under that name: see C07.R10"""
+    from . import c07
+    c07.r10_tables_read_by_key(ctx, rep)
+
+
+def r7_abstract_interface_bodies(ctx, rep):
+    """An interface body is a scope of its own with its own USE statements, whether the block is `interface` or
+    `abstract interface`.  FORD keeps the two kinds in two lists (`interfaces`, `absinterfaces`); every walk that follows the USE
+    statements of a unit's procedures down into the bodies of `interfaces` has to cover `absinterfaces` as well, otherwise names
+    imported inside an abstract interface body are never associated (sibling agreement between the two lists)."""
+    py = ctx.py
+    n = 0
+
+    def mentions(iter_: ast.AST, what: str) -> bool:
+        return any((isinstance(x, ast.Attribute) and x.attr == what) or (isinstance(x, ast.Constant) and x.value == what)
+                   for x in ast.walk(iter_))
+    for mod, fn in py.all_functions():
+        if mod not in ("fortran_project",):
+            continue
+        uses = any(isinstance(x, ast.Attribute) and x.attr == "uses" for x in ast.walk(fn))
+        loops = [lp for lp in ast.walk(fn) if isinstance(lp, (ast.For, ast.comprehension)) and py.enclosing_function(lp) is fn
+                 and mentions(lp.iter, "interfaces")]
+        if not uses or not loops:
+            continue
+        # only walks that recurse (directly or through the interface's procedure) - i.e. follow USE statements downwards
+        recursive = any(isinstance(c, ast.Call) and call_name(c).split(".")[-1] == fn.name for c in ast.walk(fn))
+        if not recursive:
+            continue
+        n += 1
+        also = any(isinstance(lp, (ast.For, ast.comprehension)) and mentions(lp.iter, "absinterfaces") for lp in ast.walk(fn))
+        rep.ob(f"{py.qualname(fn)}: the walk over interface bodies covers abstract interfaces", also,
+               "interfaces and absinterfaces are both followed" if also else
+               f"`for ... in {ast.unparse(loops[0].iter)[:50]}` follows the USE statements of interface bodies, `absinterfaces` is not "
+               f"walked: `abstract interface; subroutine cb(x); use types_mod, only: t; type(t) :: x` leaves `t` unresolved",
+               py.nloc(loops[0] if isinstance(loops[0], ast.For) else fn))
+    if n < 2:
+        raise AnalysisError(f"only {n} recursive walks over interface bodies found")
+
+
 RULES = [
     RuleSpec("C06.R1", r1_rename_map, "the rename map reaches every import", floor=4),
     RuleSpec("C06.R2", r2_public_only, "only public things cross a module boundary", floor=7),
     RuleSpec("C06.R3", r3_dependency_order, "modules are correlated in dependency order", floor=5),
     RuleSpec("C06.R4", r4_use_syntax, "USE statement syntax", floor=9),
     RuleSpec("C06.R5", r5_externalised_tables, "renamed re-exports survive externalisation (shared with C16.R2)", floor=2),
+    RuleSpec("C06.R6", r6_tables_read_by_key, "imported entities are looked up under their local name (shared with C07.R10)", floor=1),
+    RuleSpec("C06.R7", r7_abstract_interface_bodies, "USE statements in abstract interface bodies are followed like those in interface bodies", floor=2),
 ]
